@@ -149,6 +149,7 @@ ADDR = {
     "domain0": bytes([3, 0]),
     "domainip": bytes([3, 7]) + b"1.2.3.4",
     "v4mapped": bytes([4]) + bytes([0] * 10 + [0xff, 0xff, 1, 2, 3, 4]),
+    "domain_nonascii": bytes([3, 4]) + b"\xc3\xa9.x",
 }
 
 
@@ -174,6 +175,7 @@ def structured_inputs(tier: str) -> list[dict]:
     add(g + request("domain1"))
     add(g + request("domain0") + b"\x16\x03")
     add(greeting("multi", False) + request("ipv4", port=(0, 0)) + b"\x00")
+    add(g + request("domain_nonascii") + b"T")  # well-formed per RFC 1928; the code refuses it with reply 04
     # greeting defects
     add(greeting("badver", False) + request("ipv4"))
     add(greeting("nomethod", False) + request("ipv4"))
